@@ -28,6 +28,7 @@ def run(ctx):
                   exhaustive_ops=("sum_fw", "max_fw", "flip_fw", "argmax") if ctx.quick() else ("sum_fw", "max_fw", "min_fw", "flip_fw", "argmax", "argmin"))
     tc.optional_part(ctx, "scalar", "run_part", "C02")
     big_padding_probe(ctx)
+    tc.optional_part(ctx, "composites", "run_part")
     ctx.cov["rule"] = ("cases = calls of every modelled forward Device entry point on the Naive backend with shapes of depth 0..8 (size-1 axes anywhere), "
                        "axes below/at/beyond the depth and >= 8, batch 1 vs B on each operand, invalid arguments mixed in; data-movement kernels get index-identity "
                        "inputs (the output IS the kernel's dst<-src map), arithmetic kernels small integers (exact in float32), compared bitwise with the extracted "
